@@ -30,8 +30,15 @@ def exec_job(job):
     fn = job["fn"]
     dr, conn, latt, mask, signed = VARIANTS[fn]
     R0 = np.array(job["R0"], dtype=float)
-    if job.get("dtype") == "int":          # callers also pass integer adjacency matrices
-        R0 = R0.astype(int)
+    # callers pass adjacency matrices of many types and layouts; the record keeps the values
+    if job.get("dtype") in ("int", "int32", "uint8", "float32"):
+        R0 = R0.astype({"int": int}.get(job["dtype"], job["dtype"]))
+    if job.get("layout") == "F":
+        R0 = np.asfortranarray(R0)
+    elif job.get("layout") == "view":
+        big = np.zeros((len(R0) + 2, len(R0) + 3), dtype=R0.dtype)
+        big[1:-1, 2:-1] = R0
+        R0 = big[1:-1, 2:-1]
     n = len(R0)
     rec = dict(fn=fn, prop=job["prop"], n=n, dir=dr, conn=conn, latt=latt, mask=mask, signed=signed,
                R0=encode.mat_int(R0), D=encode.mat_int(job["D"]) if job.get("D") else [],
@@ -63,7 +70,7 @@ def exec_job(job):
     if itr is not None and not isinstance(itr, int):
         itr = float(itr)
     rec["zero_requested"] = int((itr == 0) if itr is not None else (job.get("maxswap") == 0))
-    Rarg = R0.copy()
+    Rarg = R0.copy() if job.get("layout") != "view" else R0     # a view stays a view
     mu._verif_sinks.append(sink)
     try:
         f = getattr(bct, fn)
